@@ -396,3 +396,28 @@ def corpus_lines(name):
                     if ln and not ln.startswith("#"):
                         out.append(ln)
     return out
+
+
+def build_repo_binary(package="clock-bound-d", profile="release", binary="clockbound"):
+    """The project's own artefact exactly as shipped (no verification cfg), from /repo's working tree."""
+    with Lock("cargo-repo"):
+        tdir = os.path.join(BUILD, "target-repo")
+        args = ["timeout", "1500", "cargo", "build", "--offline", "-p", package]
+        if profile == "release":
+            args.append("--release")
+        env = dict(ENV)
+        env["CARGO_TARGET_DIR"] = tdir
+        p = sh(args, cwd=REPO, timeout=1600, env=env, check=False)
+        if p.returncode != 0:
+            raise CheckError("%s does not build (%s):\n%s" % (package, profile, p.stdout[-4000:]))
+        return os.path.join(tdir, profile, binary)
+
+
+def run_daemon_in_namespace(binary, args, wait_s=6.0):
+    """-> dict(exit, segment(hex)|None, stderr_tail) from lib/ns_daemon.py inside a private mount namespace."""
+    helper = os.path.join(VERIF, "lib", "ns_daemon.py")
+    p = subprocess.run(["timeout", str(int(wait_s) + 20), "unshare", "-m", sys.executable, helper, binary, str(wait_s)] + list(args),
+                       stdout=subprocess.PIPE, stderr=subprocess.PIPE, text=True, env=ENV)
+    if p.returncode != 0 or not p.stdout.strip():
+        raise CheckError("namespace run failed (%d): %s" % (p.returncode, p.stderr[-1500:]))
+    return json.loads(p.stdout.strip().splitlines()[-1])
